@@ -284,8 +284,20 @@ def cases(rng, tier, shard, nshards):
         if rng.random() < 0.5:      # keep half of the curves away from y = 0 (relative metrics comparable)
             pts = pts.copy()
             pts[:, 1] = pts[:, 1] + max(float(pts[:, 1].max()), 1.0) * float(rng.uniform(0.01, 1.0))
+        lay = None
+        u = rng.random()
+        if u < 0.05:
+            pts = pts.copy()
+            pts[:, 1] = pts[:, 1] * 10.0 ** -float(rng.integers(8, 13))      # tiny units: TSS far below machine eps, not zero
+            meta = dict(meta, family=meta['family'] + '+tiny-y')
+        elif u < 0.10 and len(pts) <= 200:
+            # large integral magnitudes held in int64 (bytes vs counts): |y| * x-range exceeds 2**63, values do not
+            x = np.cumsum(rng.integers(1, 5, len(pts))).astype(float) * 10.0 ** int(rng.integers(5, 9))
+            y = np.round(pts[:, 1] / max(float(pts[:, 1].max()), 1e-300) * 10.0 ** int(rng.integers(9, 13)))
+            pts = np.ascontiguousarray(np.column_stack((x, y)))
+            meta, lay = dict(meta, family=meta['family'] + '+large-int64'), 'i64'
         sets = breakpoint_sets(rng, mods, pts, int(rng.integers(6, 41)) if len(pts) < 200 else 8)
-        yield {'points': pts, 'family': meta['family'], 'layout': gen.pick_layout(rng, pts),
+        yield {'points': pts, 'family': meta['family'], 'layout': lay or gen.pick_layout(rng, pts),
                'cost': pick(rng, COSTS), 'sets': sets, 'aslist': bool(rng.random() < 0.3),
                'grdp': {'t': gen.threshold(rng), 'distance': pick(rng, DISTANCES), 'order': pick(rng, ORDERS),
                         'min_points': int(rng.integers(0, len(pts) + 2))}}
